@@ -312,11 +312,12 @@ def run_case(c):
     p = os.path.join(scratch(), 'c20eq.fcs')
 
     def write(l):
-        buf, _ = fcsgen.build(l)
+        buf = l if isinstance(l, bytes) else fcsgen.build(l)[0]
         with open(p, 'wb') as f:
             f.write(buf)
         # the path is spelled anew for every load (equal text, another string object), as two callers would
         return FlowCal.io.FCSFile(os.path.join(os.path.dirname(p), ''.join(list(os.path.basename(p)))))
+    D_ = lay.get('delim', '/')
     a, b = write(lay), write(lay)
     if not (a == b) or (a != b) or hash(a) != hash(b):
         res.violation('file-eq:identical', 'two loads of the same file: == %s, != %s, equal hashes %s' % (a == b, a != b, hash(a) == hash(b)), dict(c))
@@ -395,6 +396,27 @@ def run_case(c):
         l2 = dict(lay)
         l2['names'] = ['CH1', 'CHX']
         edits.append(('channel renamed', l2))
+        # the same keyword edits on FCS 2.0 files (no offsets among the keywords: the edited keyword is the ONLY difference between the files)
+        lay2 = dict(lay, version='FCS2.0')
+        for k_, v in (('KEY1', 'v1x'), ('KEY1', 'V1'), ('KEY2', 'v2 '), ('KEY2', ' v2'), ('KEY1', 'v1  '), ('KEY2', 'v\t2')):
+            edits.append(('keyword (FCS2.0) %s -> %r' % (k_, v), (lay2, dict(lay2, extra=[(kk, v if kk == k_ else vv) for kk, vv in lay['extra']]))))
+        edits.append(('keyword (FCS2.0) added', (lay2, dict(lay2, extra=lay['extra'] + [('KEY3', 'v3')]))))
+        edits.append(('keyword (FCS2.0) added in front', (lay2, dict(lay2, extra=[('AAA', 'v0')] + lay['extra']))))
+        edits.append(('keyword (FCS2.0) removed', (lay2, dict(lay2, extra=lay['extra'][:1]))))
+        edits.append(('keyword (FCS2.0) values differing in blanks only', (dict(lay2, extra=[('KEY1', 'lot 42  '), ('KEY2', 'v2')]), dict(lay2, extra=[('KEY1', '  lot 42'), ('KEY2', 'v2')]))))
+        # two files with the same HEADER, offsets and events, one of which holds one keyword more (in what is blank padding at the end of
+        # the other's TEXT segment): unequal whichever is asked first
+        for ver in ('FCS2.0', 'FCS3.0'):
+            lz = dict(lay, version=ver, extra=lay['extra'] + [('ZZLAST', 'q')])
+            bz, iz = fcsgen.build(dict(lz))
+            tail = ('ZZLAST' + D_ + 'q' + D_).encode()
+            pos_ = bz.find(tail)
+            if pos_ > 0 and pos_ + len(tail) - 1 == iz['text_end'] and bz.count(tail) == 1:
+                without = bz[:pos_] + b' ' * len(tail) + bz[pos_ + len(tail):]
+                edits.append(('keyword (%s) present in one file, blank padding in the other (file without it asked first)' % ver, (without, bz)))
+                edits.append(('keyword (%s) present in one file, blank padding in the other (file with it asked first)' % ver, (bz, without)))
+        edits.append(('analysis (FCS2.0) keyword added', (lay2, dict(lay2, analysis=[('AK', 'av'), ('B', 'c')]))))
+        edits.append(('analysis (FCS2.0) value with a trailing blank', (lay2, dict(lay2, analysis=[('AK', 'av ')]))))
     for name, l2 in edits:
         either = False
         try:
@@ -418,8 +440,9 @@ def run_case(c):
         if either:
             res.ok('file-eq:equal-valued-cells', True)
             continue
-        if (refl == other) or not (refl != other):
-            res.violation('file-eq:differing:%s' % name.split(' ')[0], 'files differing by %s compare equal' % name, dict(c))
+        if (refl == other) or not (refl != other) or (other == refl) or not (other != refl):
+            res.violation('file-eq:differing:%s' % name.split(' ')[0], 'files differing by %s compare equal (== one way round: %s, the other way round: %s)' % (
+                name, refl == other, other == refl), dict(c))
         else:
             res.ok('file-eq:differing', True)
     res.counters['transitions'] += len(edits) + 1
